@@ -179,7 +179,7 @@ class CodedInputStream {
   template <typename T, std::enable_if_t<std::is_integral_v<T> && sizeof(T) == 1, bool> = true>
   void ReadByte(T& v) {
     if (buffer_ptr_ == buffer_end_ptr_) {
-      FillBuffer();
+      FillBufferOrThrow();
     }
     v = *buffer_ptr_++;
   }
@@ -229,7 +229,7 @@ class CodedInputStream {
     uint8_t* uint8_data = static_cast<uint8_t*>(data);
     while (size_in_bytes > 0) {
       if (buffer_ptr_ == buffer_end_ptr_) {
-        FillBuffer();
+        FillBufferOrThrow();
       }
 
       size_t bytes_to_copy = std::min(
@@ -274,7 +274,7 @@ class CodedInputStream {
   template <typename T, std::enable_if_t<std::is_integral_v<T>, bool> = true>
   void ReadFixedIntegerSlow(T& value) {
     if (buffer_ptr_ == buffer_end_ptr_) {
-      FillBuffer();
+      FillBufferOrThrow();
       ReadFixedIntegerFastFromArray(value, buffer_ptr_);
       return;
     }
@@ -302,7 +302,7 @@ class CodedInputStream {
   template <typename T, std::enable_if_t<std::is_integral_v<T>, bool> = true>
   void ReadVarIntegerSlow(T& value) {
     if (buffer_ptr_ == buffer_end_ptr_) {
-      FillBuffer();
+      FillBufferOrThrow();
       ReadVarIntegerFastFromArray(value, buffer_ptr_);
       return;
     }
@@ -311,7 +311,7 @@ class CodedInputStream {
     int shift = 0;
     while (true) {
       if (buffer_ptr_ == buffer_end_ptr_) {
-        FillBuffer();
+        FillBufferOrThrow();
       }
       uint8_t byte = *buffer_ptr_++;
       value |= static_cast<T>(byte & 0x7F) << shift;
@@ -341,6 +341,13 @@ class CodedInputStream {
     buffer_ptr_ = buffer_.data();
     buffer_end_ptr_ = buffer_ptr_ + bytes_read;
     return bytes_read;
+  }
+
+  // Refills the buffer for a read that needs at least one more byte.
+  void FillBufferOrThrow() {
+    if (FillBuffer() == 0) {
+      throw EndOfStreamException();
+    }
   }
 
   size_t RemainingBufferSpace() {
